@@ -13,10 +13,21 @@ GLASSO = set(canon(x) for x in (
 
 
 class SdmlDomain(TagDomain):
+  # path-sensitive: the error flag set in the handler is correlated with the
+  # path that skipped the solver
+  fork = True
+  max_states = 32
+
   def __init__(self):
     super().__init__()
     self.solver_calls = []
     self.prior_calls = []
+    self.stores = []
+
+  def on_store_attr(self, objv, attr, val, node, st):
+    super().on_store_attr(objv, attr, val, node, st)
+    if attr == 'components_' and objv.obj is not None:
+      self.stores.append((('solver',) in self.must(st), self.site(node)))
 
   def hyperparam(self, cls, name, node):
     return frozenset([('hyper', name)])
@@ -45,6 +56,7 @@ class SdmlDomain(TagDomain):
       self.solver_calls.append((self._u(a0) if a0 is not None else EMPTY,
                                 self._u(alpha) if alpha is not None
                                 else None, self.site(node)))
+      self.event(st, ('solver',))
     return super().ext_call(dotted, args, kwargs, node, st, eng)
 
 
@@ -83,6 +95,18 @@ def rule_problem(repo, rep):
                   % (sorted(map(str, alpha)) if alpha is not None else None))
     else:
       rep.derived(R, 'sdml._BaseSDML._fit:alpha', s)
+  Rs = 'R-DOM:sdml-result-comes-from-the-solver'
+  rep.rule(Rs, 'the graphical-lasso call is on every path to the store of '
+           'components_ (no shortcut returns a matrix the solver did not '
+           'produce)')
+  if not dom.stores:
+    rep.unknown(Rs, 'sdml._BaseSDML._fit', site(f), 'no store observed')
+  for (ok, s) in dom.stores:
+    if ok:
+      rep.derived(Rs, 'sdml._BaseSDML._fit', s)
+    else:
+      rep.refuted(Rs, 'sdml._BaseSDML._fit', s, 'a path stores components_ '
+                  'without having run the graphical lasso solver')
   for (ri, sp, opt, s) in dom.prior_calls:
     ok = ri is True and sp is True and set(opt) == {('hyper', 'prior')}
     rep.add(R, 'sdml._BaseSDML._fit:prior-call', 'derived' if ok else
@@ -119,6 +143,37 @@ def rule_vetting(repo, rep):
     rep.refuted(R, 'sdml._BaseSDML._fit:guard', site(f, st), 'no RuntimeError '
                 'guard precedes the store of components_')
     return
+  # every failure of the solver is converted: the try around it catches
+  # Exception
+  Rh = 'R-TRY:sdml-solver-errors-converted'
+  rep.rule(Rh, 'the solver call lies in a try whose handler catches '
+           'Exception, so that any solver failure becomes the documented '
+           'RuntimeError')
+  calls = [c for c in astutil.calls_in(f.node)
+           if (repo.dotted(f.module, c.func) or '') and
+           canon(repo.dotted(f.module, c.func)) in GLASSO]
+  for c in calls:
+    tries = astutil.enclosing(f.node, c, ast.Try)
+    ok = False
+    caught = []
+    for (t_, ch) in tries:
+      for h in t_.handlers:
+        if h.type is None:
+          ok = True
+        else:
+          for tt in (h.type.elts if isinstance(h.type, ast.Tuple)
+                     else [h.type]):
+            nm = repo.exception_bases(f.module, tt)[0]
+            caught.append(nm)
+            if nm in ('Exception', 'BaseException'):
+              ok = True
+    if ok:
+      rep.derived(Rh, 'sdml._BaseSDML._fit', site(f, c))
+    else:
+      rep.refuted(Rh, 'sdml._BaseSDML._fit', site(f, c), 'the handler '
+                  'around the solver catches only %s: other solver failures '
+                  '(e.g. FloatingPointError) escape instead of RuntimeError'
+                  % caught)
   atoms_ = set()
   t = guard.test
   parts = t.values if isinstance(t, ast.BoolOp) and \
